@@ -53,7 +53,8 @@ def base_manifest(rng):
 
 MUTATIONS = ['insert', 'delete', 'dup', 'move', 'trail', 'inner', 'crlf', 'dash+',
              'dash-', 'concat', 'nul', 'long', 'flip', 'outside', 'header', 'case',
-             'sepws', 'sepnul', 'hdr-after', 'hdr-after', 'ubreak', 'none']
+             'sepws', 'sepnul', 'hdr-after', 'hdr-after', 'ubreak', 'none', 'longtail',
+             'longtail']
 
 UBREAKS = ['\x0b', '\x0c', '\x1c', '\x1d', '\x1e', '\x85', '\u2028', '\u2029']
 
@@ -136,6 +137,19 @@ def mutate(rng, signed, other_signed):
         if rng.random() < 0.5:
             ins += 'DATA evil 0'
         lines[k] = lines[k][:pos] + ins + lines[k][pos:]
+    elif op == 'longtail':
+        # GnuPG reads cleartext in lines of at most ~20000 bytes: what lies beyond
+        # is not hashed.  Pad a signed line with blanks (not hashed either, as
+        # trailing white space) and append something behind the limit
+        b = rng.choice(body_idx)
+        toks = lines[b].split()
+        tails = ['x', 'SHA1 ' + 'ab' * 20, 'MD5 ' + 'cd' * 16]
+        if len(toks) > 4:
+            tails += ['%s %s' % (toks[-2], 'e' * len(toks[-1]))] * 3
+        total = rng.choice([19990, 19993, 19994, 19996, 20001, 20004, 20010, 25000,
+                            40000, 70000])
+        pad = max(1, total - len(lines[b].encode('utf8')))
+        lines[b] = lines[b] + rng.choice([' ', '\t']) * pad + rng.choice(tails)
     elif op == 'sepws':
         # whitespace on the header/body separator line
         for k in range(1, min(4, n)):
